@@ -26,6 +26,7 @@ import re
 from vlib import driver
 from vlib.gen import c09_gen as gen
 from vlib.ref import c09_reader as ref
+from vlib import fuzz
 from vlib.runner import Sub, Verdict, fail
 
 PROPERTY_ID = 'C09'
@@ -41,7 +42,10 @@ RULE = ('cli_examples: the manual\'s own examples for STRING/RICH-STRING/LIST/SY
         'instruction text). tokenizer_diff: Hypothesis draws of (source text, sequence of consume / consume-rest-of-'
         'line operations); non-trivial = source has a quote, `#`, newline or >= 2 tokens; distinct = distinct '
         '(source, ops). tokenizer_small: every string over {a,space,newline,",\',#,\\,@,=} up to length 4 (quick) / '
-        '5 (thorough), token-wise consumption; all counted')
+        '5 (thorough), token-wise consumption; all counted. tokenizer_fuzz: coverage-guided campaigns (atheris/'
+        'libFuzzer, shlex and TokenStream instrumented) over the same tokenizer oracle; bytes are decoded into '
+        '(operations, fragments of a fixed syntax alphabet); every second campaign starts from an empty corpus; '
+        'mismatches are collected per bucket and replayed through tokenizer_diff')
 ASSUMPTIONS = [
     'whitespace = space, tab, CR, LF (the manual only says "whitespace"); generated sources use space, tab, LF',
     'a quoted fragment may contain line breaks (the manual puts no restriction on CHARACTER inside quotes)',
@@ -557,6 +561,22 @@ def tok_strategy(tier):
     return gen.tok_case(tier)
 
 
+_FUZZ_ALPHABET = ['a', 'b', ' ', ' ', '\t', '\n', '\n', "'", '"', '@[', ']@', 'S', '_', '#', '\\', '=', ':', '|', '(', ')',
+                  '{', '}', '!', '&&', '||', '-', '<<', 'EOF', ':>', 'é', '[', ']', '@', '<', '>', '&', '\r', '0']
+
+
+def decode_tok(data: bytes):
+    """bytes -> tokenizer case: the first byte gives the number of operations, then the operations, the rest
+    selects source fragments from a fixed alphabet (structured decoding, so that coverage feedback works on
+    the syntax and not on UTF-8 validity)"""
+    if not data:
+        return {'src': '', 'ops': []}
+    n_ops = data[0] % 9
+    ops = [(0, 0, 0, 0, 1, 2)[b % 6] for b in data[1:1 + n_ops]]
+    src = ''.join(_FUZZ_ALPHABET[b % len(_FUZZ_ALPHABET)] for b in data[1 + n_ops:])
+    return {'src': src, 'ops': ops}
+
+
 def _render_cli(case):
     rd = gen.render(case)
     return {'host': case['host'], 'target_instruction': rd['target']}
@@ -568,4 +588,8 @@ SUBS = [
         render=_render_cli),
     Sub('tokenizer_diff', check_tok, strategy=tok_strategy, budget={'quick': 40000, 'thorough': 1500000}),
     Sub('tokenizer_small', check_tok, enumerate=enum_small, exhaustive=True),
+    fuzz.fuzz_sub('tokenizer_fuzz', 'props.c09_strings', 'check_tok', 'decode_tok', 'tokenizer_diff',
+                  runs={'quick': 100000, 'thorough': 4000000}, shards={'quick': 4, 'thorough': 16}, max_len=64,
+                  instrument=('exactly_lib.section_document', 'exactly_lib.util'),
+                  seeds=[b'\x03\x00\x01\x00a \'b c\' "d"\n', b'\x02\x00\x04x<<EOF\nEOF\n']),
 ]
